@@ -22,7 +22,8 @@ def main():
     sys.path.insert(1, vdir)
     sys.dont_write_bytecode = True
 
-    from sim import simlock
+    from sim import simlock, simclock
+    simclock.install()     # the clock seam, likewise before the package is imported
     simlock.install()      # before the package is imported: locks it creates are visible to the scheduler
 
     import python_minifier
